@@ -31,6 +31,20 @@ def mentions(expr):
     return out
 
 
+def _is_reference(expr):
+    """expr names an existing object (name, attribute, constant-keyed or
+    name-keyed subscript): a local bound to it is an alias, so changes made
+    through the local are changes of that object."""
+    if isinstance(expr, ast.Name):
+        return True
+    if isinstance(expr, ast.Attribute):
+        return _is_reference(expr.value)
+    if isinstance(expr, ast.Subscript):
+        return _is_reference(expr.value) and isinstance(
+            expr.slice, (ast.Constant, ast.Name, ast.Attribute))
+    return False
+
+
 def copy_env(func_node, graph=None):
     """Local names assigned exactly once in the function (plain
     ``name = expr``, not a loop / with / except target, not a parameter,
@@ -40,20 +54,26 @@ def copy_env(func_node, graph=None):
     counts = {}
     defs = {}
     banned = set()
+    mutated = set()         # banned only because changed in place
+    hard_banned = set()     # re-bound by other constructs
     stored_paths = set()
     args = func_node.args
     for arg in args.posonlyargs + args.args + args.kwonlyargs:
         banned.add(arg.arg)
+        hard_banned.add(arg.arg)
     if args.vararg:
         banned.add(args.vararg.arg)
+        hard_banned.add(args.vararg.arg)
     if args.kwarg:
         banned.add(args.kwarg.arg)
+        hard_banned.add(args.kwarg.arg)
     stack = list(func_node.body)
     while stack:
         node = stack.pop()
         if isinstance(node, (ast.FunctionDef, ast.AsyncFunctionDef,
                              ast.ClassDef, ast.Lambda)):
             banned.add(getattr(node, 'name', ''))
+            hard_banned.add(getattr(node, 'name', ''))
             continue
         if isinstance(node, ast.Assign):
             for tgt in node.targets:
@@ -65,22 +85,27 @@ def copy_env(func_node, graph=None):
                         if isinstance(leaf, ast.Name) and \
                                 isinstance(leaf.ctx, ast.Store):
                             banned.add(leaf.id)
+                            hard_banned.add(leaf.id)
         elif isinstance(node, (ast.AugAssign, ast.AnnAssign)):
             for leaf in ast.walk(node.target):
                 if isinstance(leaf, ast.Name):
                     banned.add(leaf.id)
+                    hard_banned.add(leaf.id)
         elif isinstance(node, (ast.For, ast.AsyncFor)):
             for leaf in ast.walk(node.target):
                 if isinstance(leaf, ast.Name):
                     banned.add(leaf.id)
+                    hard_banned.add(leaf.id)
         elif isinstance(node, (ast.With, ast.AsyncWith)):
             for item in node.items:
                 if item.optional_vars is not None:
                     for leaf in ast.walk(item.optional_vars):
                         if isinstance(leaf, ast.Name):
                             banned.add(leaf.id)
+                            hard_banned.add(leaf.id)
         elif isinstance(node, ast.ExceptHandler) and node.name:
             banned.add(node.name)
+            hard_banned.add(node.name)
         for sub in ast.walk(node) if isinstance(node, ast.expr) else []:
             pass
         # a local that is mutated in place is not a value to propagate
@@ -91,6 +116,7 @@ def copy_env(func_node, graph=None):
             while isinstance(base, (ast.Subscript, ast.Attribute)):
                 base = base.value
             if isinstance(base, ast.Name):
+                mutated.add(base.id)
                 banned.add(base.id)
         if isinstance(node, ast.Call) and isinstance(
                 node.func, ast.Attribute) and node.func.attr in (
@@ -98,6 +124,7 @@ def copy_env(func_node, graph=None):
                     'discard', 'clear', 'insert', 'setdefault', 'popitem',
                     'sort', 'reverse', 'appendleft', 'popleft') and \
                 isinstance(node.func.value, ast.Name):
+            mutated.add(node.func.value.id)
             banned.add(node.func.value.id)
         for extra in getattr(node, '_inline_body', None) or ():
             stack.append(extra)
@@ -106,10 +133,13 @@ def copy_env(func_node, graph=None):
                 for leaf in ast.walk(child.target):
                     if isinstance(leaf, ast.Name):
                         banned.add(leaf.id)
+                        hard_banned.add(leaf.id)
             stack.append(child)
     out = {}
     for name, cnt in counts.items():
-        if cnt == 1 and name not in banned:
+        if cnt == 1 and (name not in banned or (
+                name in mutated and name not in hard_banned and
+                _is_reference(defs[name]))):
             val = defs[name]
             # only pure-looking definitions: names, attributes, constants,
             # subscripts, arithmetic, and calls without keyword side
